@@ -9,3 +9,32 @@ def reregister(prop, from_prop, oid, new_oid, replay='same'):
             REGISTRY.setdefault(prop, []).append(Obligation(new_oid, o.func, o.fns, o.tier, o.backend, o.doc, rp, prop))
             return
     raise RuntimeError('obligation %s not found in %s' % (oid, from_prop))
+
+
+def make_solver_input(nm, solver, n, prop, cls, file, model_cls):
+    """obligation: calculate_M<X> hands get_mass_matrix_<X>() -- every entry, on every path -- to the decomposition routine, exactly once"""
+    import z3
+    from gm2v.ob import obligation, PROVED, FAILED, ERROR
+    from gm2v.interp import Interp
+    from gm2v.values import Mat, z3real
+    @obligation('%s.spectrum.solver_input.%s' % (prop, nm), fns=[(file, cls + '::calculate_M' + nm)])
+    def ob(ctx, nm=nm, solver=solver, n=n, CLS=cls, model_cls=model_cls):
+        """ensures: calculate_M<X> hands get_mass_matrix_<X>() -- every entry, on every path -- to the decomposition routine, exactly once"""
+        handed = []
+        it = Interp(ctx.w, mode='sym')
+        M = Mat(n, n, [[z3.Real('m%d%d' % (i, j)) for j in range(n)] for i in range(n)], 'matrix', False)
+        it.stubs.update({solver: lambda i, ar, t: handed.append(ar[0].copy()), CLS + '::get_mass_matrix_' + nm: lambda i, ar, t: M})
+        m = it.new_object(model_cls)
+        def run():
+            del handed[:]
+            it.call('calculate_M' + nm, [], this=m)
+            return list(handed)
+        paths = it.run_paths(run)
+        ctx.merge_rules(it)
+        for k, (sym, hd, exc) in enumerate(paths):
+            if len(hd) != 1 or hd[0].r != n:
+                ctx.record('path%d' % k, FAILED, 'B', 0, 'the decomposition routine is called %d times' % len(hd))
+                continue
+            ctx.prove('path%d' % k, sym.pc, z3.And(*[z3real(hd[0].get(i, j)) == z3real(M.get(i, j)) for i in range(n) for j in range(n)]), check_vacuity=False)
+        ctx.record('paths', PROVED if paths else ERROR, 'B', 0, '%d path(s)' % len(paths))
+    return ob
